@@ -253,28 +253,22 @@ func GetOnlyExplainErr(errMsg string) string {
 	}
 	buf := newStrBuf(1 << 8)
 	defer putStrBuf(buf)
-	zhLen := len(ExplainZh)
-	enLen := len(ExplainEn)
-	endLen := len(ErrEndFlag)
-	splitLen := zhLen
 	nullLen := 1 // err msg [说明: xxx] 里包含一个空需要处理
-	for {
-		s := strings.Index(errMsg, ExplainZh)
-		e := strings.Index(errMsg, ErrEndFlag) // 未发现的话, 为最后一句错误
-		if s == -1 || (e != -1 && s > e) {     // 说明为英文
-			s = strings.Index(errMsg, ExplainEn)
-			splitLen = enLen
+	// 按句处理, 每句里的说明标识可能为中文/英文/没有(如: 验证规则不存在)
+	for _, msg := range strings.Split(errMsg, ErrEndFlag) {
+		s := strings.Index(msg, ExplainZh)
+		splitLen := len(ExplainZh)
+		if en := strings.Index(msg, ExplainEn); s == -1 || (en != -1 && en < s) { // 说明为英文
+			s = en
+			splitLen = len(ExplainEn)
 		}
-		if s == -1 { // 异常
-			break
+		if s == -1 || s+splitLen+nullLen > len(msg) { // 此句没有说明
+			continue
 		}
-		if e == -1 {
-			buf.WriteString(errMsg[s+splitLen+nullLen:])
-			break
+		if buf.Len() > 0 {
+			buf.WriteString(ErrEndFlag)
 		}
-		buf.WriteString(errMsg[s+splitLen+nullLen : e])
-		buf.WriteString(ErrEndFlag)
-		errMsg = errMsg[e+endLen:]
+		buf.WriteString(msg[s+splitLen+nullLen:])
 	}
 	return buf.String()
 }
